@@ -73,7 +73,7 @@ PLAN["C01"] = dict(
     ],
     thorough=[
         dict(kind="enum", test="TestC01Scope|TestC01Corpus|TestC01Large", solo=True, timeout=3000, env={"VERIF_DEPTH": 1}),
-        dict(test="TestC01Rapid", checks=60000, shards=16, counts=["C01.msg"], timeout=3000),
+        dict(test="TestC01Rapid", checks=60000, shards=16, counts=["C01.msg"], timeout=5400),
     ],
 )
 
@@ -94,7 +94,7 @@ PLAN["C02"] = dict(
     ],
     thorough=[
         dict(kind="enum", test="TestC02Scope", solo=True, timeout=3000, env={"VERIF_DEPTH": 1}),
-        dict(test="TestC02Rapid", checks=100000, shards=16, counts=["C02.sub"], timeout=3000),
+        dict(test="TestC02Rapid", checks=100000, shards=16, counts=["C02.sub"], timeout=5400),
     ],
 )
 
@@ -116,7 +116,7 @@ PLAN["C03"] = dict(
     ],
     thorough=[
         dict(kind="enum", test="TestC03Scope", solo=True, timeout=3000, env={"VERIF_DEPTH": 1}),
-        dict(test="TestC03Rapid", checks=40000, shards=16, counts=["C03.prem"], timeout=3000),
+        dict(test="TestC03Rapid", checks=40000, shards=16, counts=["C03.prem"], timeout=5400),
     ],
 )
 
@@ -143,10 +143,10 @@ PLAN["C04"] = dict(
     ],
     thorough=[
         dict(kind="enum", test="TestC04Scope|TestC04Enum|TestC04Large", solo=True, timeout=3000, env={"VERIF_DEPTH": 1, "VERIF_C04_IP6LEN": 10}),
-        dict(test="TestC04StreamRapid", checks=100000, shards=6, counts=["C04.stream"], timeout=3000),
-        dict(test="TestC04APIRapid", checks=100000, shards=4, counts=["C04.api"], timeout=3000),
-        dict(test="TestC04IsoRapid", checks=15000, shards=4, counts=["C04.iso"], race=True, timeout=3000),
-        dict(test="TestC04IsoAPIRapid", checks=15000, shards=2, counts=["C04.isoapi"], race=True, timeout=3000),
+        dict(test="TestC04StreamRapid", checks=100000, shards=6, counts=["C04.stream"], timeout=5400),
+        dict(test="TestC04APIRapid", checks=100000, shards=4, counts=["C04.api"], timeout=5400),
+        dict(test="TestC04IsoRapid", checks=15000, shards=4, counts=["C04.iso"], race=True, timeout=5400),
+        dict(test="TestC04IsoAPIRapid", checks=15000, shards=2, counts=["C04.isoapi"], race=True, timeout=5400),
     ],
 )
 
@@ -166,8 +166,8 @@ PLAN["C11"] = dict(
     ],
     thorough=[
         dict(kind="enum", test="TestC11Scope", solo=True, timeout=3000, env={"VERIF_DEPTH": 1}),
-        dict(test="TestC11Rapid", checks=60000, shards=16, counts=["C11.shift"], timeout=3000),
-        dict(test="TestC11RelocRapid", checks=200000, shards=2, counts=["C11.reloc"], timeout=3000),
+        dict(test="TestC11Rapid", checks=60000, shards=16, counts=["C11.shift"], timeout=5400),
+        dict(test="TestC11RelocRapid", checks=200000, shards=2, counts=["C11.reloc"], timeout=5400),
     ],
 )
 
@@ -187,8 +187,8 @@ PLAN["C12"] = dict(
         dict(test="TestC12URIRapid", checks=20000, shards=2, counts=["C12.uri"]),
     ],
     thorough=[
-        dict(test="TestC12Rapid", checks=120000, shards=14, counts=["C12.reset"], timeout=3000),
-        dict(test="TestC12URIRapid", checks=200000, shards=2, counts=["C12.uri"], timeout=3000),
+        dict(test="TestC12Rapid", checks=1000000, shards=14, counts=["C12.reset"], timeout=5400),
+        dict(test="TestC12URIRapid", checks=2000000, shards=2, counts=["C12.uri"], timeout=5400),
     ],
 )
 
@@ -207,10 +207,12 @@ PLAN["C13"] = dict(
     quick=[
         dict(kind="enum", test="TestC13Corpus", solo=True, timeout=900),
         dict(test="TestC13Rapid", checks=30000, shards=10, counts=["C13.cap"]),
+        dict(test="TestC13MultiRapid", checks=30000, shards=3, counts=["C13.multicall"]),
     ],
     thorough=[
         dict(kind="enum", test="TestC13Corpus", solo=True, timeout=900),
-        dict(test="TestC13Rapid", checks=100000, shards=16, counts=["C13.cap"], timeout=3000),
+        dict(test="TestC13Rapid", checks=800000, shards=16, counts=["C13.cap"], timeout=5400),
+        dict(test="TestC13MultiRapid", checks=500000, shards=4, counts=["C13.multicall"], timeout=5400),
     ],
 )
 
@@ -237,7 +239,7 @@ PLAN["C05"] = dict(
     ],
     thorough=[
         dict(kind="enum", test="TestC05Corpus", timeout=600),
-        dict(test="TestC05Rapid", checks=200000, shards=16, counts=["C05.contain"], timeout=3000),
+        dict(test="TestC05Rapid", checks=600000, shards=16, counts=["C05.contain"], timeout=5400),
     ],
 )
 
@@ -260,8 +262,8 @@ PLAN["C06"] = dict(
     ],
     thorough=[
         dict(kind="enum", test="TestC06Grid", timeout=600),
-        dict(test="TestC06FrameRapid", checks=150000, shards=8, counts=["C06.frame"], timeout=3000),
-        dict(test="TestC06PipeRapid", checks=100000, shards=8, counts=["C06.pipe"], timeout=3000),
+        dict(test="TestC06FrameRapid", checks=600000, shards=8, counts=["C06.frame"], timeout=5400),
+        dict(test="TestC06PipeRapid", checks=400000, shards=8, counts=["C06.pipe"], timeout=5400),
     ],
 )
 
@@ -278,7 +280,7 @@ PLAN["C07"] = dict(
           "of: fold, lone CR/LF line end, whitespace before the colon, empty value, compact or re-cased known name, capacity < N; "
           "distinct by case hash"),
     quick=[dict(test="TestC07Rapid", checks=12000, shards=12, counts=["C07.block"])],
-    thorough=[dict(test="TestC07Rapid", checks=120000, shards=16, counts=["C07.block"], timeout=3000)],
+    thorough=[dict(test="TestC07Rapid", checks=1000000, shards=16, counts=["C07.block"], timeout=5400)],
 )
 
 PLAN["C08"] = dict(
@@ -298,7 +300,7 @@ PLAN["C08"] = dict(
     ],
     thorough=[
         dict(kind="enum", test="TestC08Enum", timeout=600),
-        dict(test="TestC08Rapid", checks=400000, shards=12, counts=["C08.fline"], timeout=3000),
+        dict(test="TestC08Rapid", checks=3000000, shards=14, counts=["C08.fline"], timeout=5400),
     ],
 )
 
@@ -316,7 +318,7 @@ PLAN["C09"] = dict(
     rule=("case = (header kind, headers x values specs, entry point, surrounding LWS, capacity, Expires header); non-trivial = "
           "a value has a display name or parameters and contains LWS or a quoted string, or the case has >= 2 values; distinct by case hash"),
     quick=[dict(test="TestC09Rapid", checks=25000, shards=12, counts=["C09.nameaddr"])],
-    thorough=[dict(test="TestC09Rapid", checks=250000, shards=16, counts=["C09.nameaddr"], timeout=3000)],
+    thorough=[dict(test="TestC09Rapid", checks=2000000, shards=16, counts=["C09.nameaddr"], timeout=5400)],
 )
 
 PLAN["C10"] = dict(
@@ -337,7 +339,7 @@ PLAN["C10"] = dict(
     ],
     thorough=[
         dict(kind="enum", test="TestC10Enum", timeout=1200, env={"VERIF_C10_DIGITS": 7}),
-        dict(test="TestC10Rapid", checks=500000, shards=12, counts=["C10.num"], timeout=3000),
+        dict(test="TestC10Rapid", checks=3000000, shards=14, counts=["C10.num"], timeout=5400),
     ],
 )
 
@@ -359,8 +361,8 @@ PLAN["C17"] = dict(
         dict(test="TestC17ViaRapid", checks=30000, shards=4, counts=["C17.viabr"]),
     ],
     thorough=[
-        dict(test="TestC17Rapid", checks=300000, shards=12, counts=["C17.list"], timeout=3000),
-        dict(test="TestC17ViaRapid", checks=300000, shards=4, counts=["C17.viabr"], timeout=3000),
+        dict(test="TestC17Rapid", checks=300000, shards=12, counts=["C17.list"], timeout=5400),
+        dict(test="TestC17ViaRapid", checks=300000, shards=4, counts=["C17.viabr"], timeout=5400),
     ],
 )
 
@@ -383,7 +385,7 @@ PLAN["C14"] = dict(
     ],
     thorough=[
         dict(kind="enum", test="TestC14Enum", solo=True, timeout=3000, env={"VERIF_C14_LEN": 8}),
-        dict(test="TestC14Rapid", checks=600000, shards=12, counts=["C14.uri"], timeout=3000),
+        dict(test="TestC14Rapid", checks=600000, shards=12, counts=["C14.uri"], timeout=5400),
     ],
 )
 
@@ -399,7 +401,7 @@ PLAN["C15"] = dict(
     level_note=_MODEL_NOTE + " Nothing is asserted about a parameter other than user/ttl/method/maddr present on one side only.",
     rule=("case = (URI spec a, URI spec b, relation); non-trivial = both parse and carry >= 1 parameter or header; distinct by case hash"),
     quick=[dict(test="TestC15Rapid", checks=10000, shards=12, counts=["C15.cmp"])],
-    thorough=[dict(test="TestC15Rapid", checks=100000, shards=16, counts=["C15.cmp"], timeout=3000)],
+    thorough=[dict(test="TestC15Rapid", checks=100000, shards=16, counts=["C15.cmp"], timeout=5400)],
 )
 
 PLAN["C18"] = dict(
@@ -419,7 +421,7 @@ PLAN["C18"] = dict(
     ],
     thorough=[
         dict(kind="enum", test="TestC18Enum", solo=True, timeout=3000, env={"VERIF_C18_LEN": 6}),
-        dict(test="TestC18Rapid", checks=400000, shards=12, counts=["C18.reloc"], timeout=3000),
+        dict(test="TestC18Rapid", checks=400000, shards=12, counts=["C18.reloc"], timeout=5400),
     ],
 )
 
@@ -436,7 +438,7 @@ PLAN["C19"] = dict(
     rule=("case = (method, base header list, variant header lists, schedule, capacity); non-trivial = >= 3 fingerprinted "
           "headers and >= 1 variant; distinct by case hash"),
     quick=[dict(test="TestC19Rapid", checks=6000, shards=12, counts=["C19.sig"])],
-    thorough=[dict(test="TestC19Rapid", checks=60000, shards=16, counts=["C19.sig"], timeout=3000)],
+    thorough=[dict(test="TestC19Rapid", checks=60000, shards=16, counts=["C19.sig"], timeout=5400)],
 )
 
 PLAN["C20"] = dict(
@@ -457,7 +459,7 @@ PLAN["C20"] = dict(
     ],
     thorough=[
         dict(kind="enum", test="TestC20Enum", solo=True, timeout=3000, env={"VERIF_C20_LEN": 11, "VERIF_C20_DIGLEN": 7}),
-        dict(test="TestC20Rapid", checks=600000, shards=12, counts=["C20.ip4"], timeout=3000),
+        dict(test="TestC20Rapid", checks=600000, shards=12, counts=["C20.ip4"], timeout=5400),
     ],
 )
 
